@@ -318,6 +318,64 @@ func c19MoreTargets() []c19Target {
 			}
 			return c19Res{ok: !tooLong}
 		}})
+	// "all option structs": the artifact is a 4-byte description of an Options value (hash identifier, context
+	// length, the five VerifyOptions flags or a nil / package preset pointer, AddedRandomness, SelfVerify, message
+	// shape); truncation, bit flips and block fills walk the struct space from a valid corner.  A struct is valid
+	// exactly as the field documentation says: Hash is 0 or SHA-512 (then the message is 64 bytes), the context is
+	// at most 255 bytes, AllowNonCanonicalR and CofactorlessVerify are not both set.
+	add(c19Target{name: "ed25519.Options(struct)", size: 4, anyLength: true,
+		docPanic: func(b []byte) bool { _, _, valid := c19DecodeOptions(b, nil); return !valid },
+		gen: func(c *c19Ctx) []byte {
+			c.priv = c.g.EdKey()
+			c.aux["pk"] = clone(c.priv[32:])
+			c.aux["msg"] = c.g.Msg()
+			b := c.g.Bytes(4)
+			b[0] %= 2
+			b[1] %= 9
+			if b[2]&0x18 == 0x18 {
+				b[2] &^= 0x10
+			}
+			b[3] &^= 0x0c
+			if b[0] == 1 {
+				b[3] |= 4
+			}
+			return b
+		},
+		try: func(c *c19Ctx, prev, b []byte) c19Res {
+			o, msg, valid := c19DecodeOptions(b, c.aux["msg"])
+			pk := ed25519.PublicKey(c.aux["pk"])
+			sig, err := c.priv.Sign(det(), msg, o)
+			if err != nil && sig != nil {
+				return c19Res{bad: "Sign returned a signature together with an error"}
+			}
+			if !valid && err == nil {
+				return c19Res{bad: "Sign produced a signature under an invalid option struct"}
+			}
+			if valid && err != nil {
+				return c19Res{bad: "Sign refused a valid option struct: " + err.Error()}
+			}
+			if !valid {
+				// some well-formed signature by the same key, for the verification side
+				sig = ed25519.Sign(c.priv, msg)
+			}
+			v := ed25519.NewBatchVerifier()
+			v.AddWithOptions(pk, msg, sig, o)
+			if ek, err := ed25519.NewExpandedPublicKey(pk); err == nil {
+				v.AddExpandedWithOptions(ek, msg, sig, o)
+			}
+			bok, res := v.Verify(det())
+			if bok != valid || len(res) != 2 || res[0] != valid || res[1] != valid {
+				return c19Res{bad: fmt.Sprintf("batch verification under a valid=%v option struct: ok=%v results=%v", valid, bok, res)}
+			}
+			if bo := v.VerifyBatchOnly(det()); bo && !valid {
+				return c19Res{bad: "VerifyBatchOnly accepted a batch whose option struct is invalid"}
+			}
+			// the single forms may panic (only) on an invalid struct
+			if ok := ed25519.VerifyWithOptions(pk, msg, sig, o); ok != valid {
+				return c19Res{bad: fmt.Sprintf("single verification under a valid=%v option struct = %v", valid, ok)}
+			}
+			return c19Res{ok: valid}
+		}})
 	// provers take a private key: the error-returning forms must return an error for a malformed key
 	add(c19Target{name: "ecvrf.ProveWithAddedRandomness(private key)", size: 64,
 		gen: func(c *c19Ctx) []byte { c.aux["msg"] = c.g.Msg(); return clone(c.g.EdKey()) },
@@ -337,4 +395,68 @@ func c19MoreTargets() []c19Target {
 			return c19Res{ok: len(pi) == ecvrf.ProofSize}
 		}})
 	return ts
+}
+
+// c19DecodeOptions maps a short byte string onto an Options value, the message it goes with, and whether the
+// struct is valid by the documented field rules.  Missing bytes read as zero.
+func c19DecodeOptions(b, baseMsg []byte) (o *ed25519.Options, msg []byte, valid bool) {
+	at := func(i int) byte {
+		if i < len(b) {
+			return b[i]
+		}
+		return 0
+	}
+	o = &ed25519.Options{}
+	valid = true
+	switch at(0) % 5 {
+	case 0:
+	case 1:
+		o.Hash = crypto.SHA512
+	case 2:
+		o.Hash = crypto.SHA256
+	case 3:
+		o.Hash = crypto.SHA3_512
+	default:
+		o.Hash = crypto.Hash(99)
+	}
+	if o.Hash != 0 && o.Hash != crypto.SHA512 {
+		valid = false
+	}
+	cl := []int{0, 1, 2, 31, 32, 64, 128, 254, 255, 256, 257, 300}[int(at(1))%12]
+	ctx := make([]byte, cl)
+	for i := range ctx {
+		ctx[i] = byte(i*7) ^ at(1)
+	}
+	o.Context = string(ctx)
+	if cl > ed25519.ContextMaxSize {
+		valid = false
+	}
+	f := at(2)
+	switch {
+	case f&0x20 != 0:
+		o.Verify = nil
+	case f&0xc0 == 0x40:
+		o.Verify = []*ed25519.VerifyOptions{ed25519.VerifyOptionsDefault, ed25519.VerifyOptionsStdLib, ed25519.VerifyOptionsFIPS_186_5, ed25519.VerifyOptionsZIP_215}[f&3]
+	default:
+		o.Verify = &ed25519.VerifyOptions{AllowSmallOrderA: f&1 != 0, AllowSmallOrderR: f&2 != 0, AllowNonCanonicalA: f&4 != 0, AllowNonCanonicalR: f&8 != 0, CofactorlessVerify: f&16 != 0}
+	}
+	if o.Verify != nil && o.Verify.AllowNonCanonicalR && o.Verify.CofactorlessVerify {
+		valid = false
+	}
+	g := at(3)
+	o.AddedRandomness = g&1 != 0
+	o.SelfVerify = g&2 != 0
+	d := sha512.Sum512(baseMsg)
+	switch {
+	case g&8 != 0:
+		msg = d[:63]
+	case g&4 != 0:
+		msg = d[:]
+	default:
+		msg = baseMsg
+	}
+	if o.Hash == crypto.SHA512 && len(msg) != sha512.Size {
+		valid = false
+	}
+	return
 }
